@@ -2,7 +2,8 @@
 """
 Round-3 bookkeeping: copy the confirmed deliverables of /tmp/seed/<Cxx>/{patch,demo,notes}_{c,d} to /verif/seeded/<Cxx><v>/,
 and (re)write detected_by in every seeded/<id>/meta.json from a matrix run (tools/matrix.sh output) plus one run of each firing
-check on the patched scratch tree /tmp/sw/<id> to record the rules.  Writes seeded/MATRIX.md.   usage: seed3_meta.py <matrix.txt>
+check on the patched scratch tree /tmp/sw/<id> to record the rules.  Writes seeded/MATRIX.md.   usage: seed3_meta.py <matrix.txt> [<srcroot> <variants> <round>]
+(defaults /tmp/seed cd 3; round 4: /tmp/seed4 ef 4; round 5: /tmp/seed5 gh 5).  A seed whose meta.json exists is not re-imported.
 """
 import glob, json, os, re, shutil, subprocess, sys
 mat = {}
@@ -12,13 +13,17 @@ for l in open(sys.argv[1]):
         props = re.findall(r'C\d\d', m.group(2).split('(analysis')[0]) if 'MISSED' not in m.group(2) else []
         mat[m.group(1)] = props
 head = subprocess.run(['git', '-C', '/repo', 'rev-parse', '--short', 'HEAD'], capture_output=True, text=True).stdout.strip()
-for d in sorted(glob.glob('/tmp/seed/C*')):
+SRC, VARS, ROUND = (sys.argv[2], sys.argv[3], int(sys.argv[4])) if len(sys.argv) > 4 else ('/tmp/seed', 'cd', 3)
+AFTER = json.load(open('/verif/seeded/rules_after_seed.json')) if os.path.exists('/verif/seeded/rules_after_seed.json') else {}
+for d in sorted(glob.glob(SRC + '/C*')):
     pid = os.path.basename(d)
-    for v in 'cd':
-        if not os.path.exists('%s/patch_%s.diff' % (d, v)):
+    for v in VARS:
+        if not os.path.exists('%s/patch_%s.diff' % (d, v)) or not os.path.exists('%s/confirm_%s.txt' % (d, v)):
             continue
         sid = pid + v
         out = '/verif/seeded/' + sid
+        if os.path.exists(out + '/meta.json'):
+            continue
         os.makedirs(out, exist_ok=True)
         shutil.copy('%s/patch_%s.diff' % (d, v), out + '/patch.diff')
         shutil.copy('%s/demo_%s.py' % (d, v), out + '/demo.py')
@@ -31,12 +36,12 @@ for d in sorted(glob.glob('/tmp/seed/C*')):
             txt = open(out + '/notes.md').read()
             m = re.search(r'(?is)(needs?[^\n]*manifest[^\n]*|what (it|is) need[^\n]*)\n+(.*?)(\n#|\n\n\n|\Z)', txt)
             needs = re.sub(r'\s+', ' ', m.group(3))[:400] if m else ''
-        meta = {'id': sid, 'property': pid, 'variant': v, 'round': 3,
+        meta = {'id': sid, 'property': pid, 'variant': v, 'round': ROUND,
                 'breaks': 'see notes.md (written by the seeding sub-agent, which saw only the property text)',
                 'needs_to_manifest': needs or 'see notes.md',
                 'files_changed': sorted(set(re.findall(r'^diff --git a/(\S+)', open(out + '/patch.diff').read(), re.M))),
                 'patch': 'applies to HEAD as delivered',
-                'confirmed_by_me': {'how': 'tools/confirm_seed.sh %s %s : scratch worktree of /repo HEAD %s, demo on clean tree, apply patch, demo again, '
+                'confirmed_by_me': {'how': 'SEEDROOT=' + SRC + ' tools/confirm_seed.sh %s %s : scratch worktree of /repo HEAD %s, demo on clean tree, apply patch, demo again, '
                                            'full pinned suite with -n 6, worktree removed' % (pid, v, head),
                                     'demo_exit_clean': g(r'clean_exit=(\d+)'), 'demo_exit_patched': g(r'patched_exit=(\d+)'),
                                     'suite_with_patch': g(r'(\d+ failed, \d+ passed[^\n]*?error)')},
@@ -54,20 +59,23 @@ for mf in sorted(glob.glob('/verif/seeded/C*/meta.json')):
         if rules:
             det.append({'check': p, 'rules': rules})
     meta['detected_by'] = det
+    if sid in AFTER:
+        meta['rule_written_after_seeing_the_seed'] = AFTER[sid]
     meta['checks_run'] = 'tools/matrix.sh: every claimed check (quick, registered tree form) on /tmp/sw/%s = tracked tree of /repo HEAD %s + patch.diff' % (sid, head)
     meta.setdefault('analysis_errors', [])
     json.dump(meta, open(mf, 'w'), indent=1)
     rows.append((sid, meta.get('property'), det, meta.get('round', 1)))
 with open('/verif/seeded/MATRIX.md', 'w') as f:
     f.write('# Seeded changes vs checks (repo HEAD %s)\n\nRounds 1-2: variants a, b (42 of 48 were caught at the end of round 2, several by rules written after the seed was seen -- see DESIGN.md §7.2). '
-            'Round 3: variants c, d, produced by fresh sub-agents that saw only the property text; DESIGN.md §7.5 says which rules were added after them.\n\n' % head)
-    f.write('| seed | property claimed? | caught by |\n|---|---|---|\n')
+            'Round 3: variants c, d, produced by fresh sub-agents that saw only the property text; DESIGN.md §7.5 says which rules were added after them. Rounds 4 (e, f) and 5 (g, h): same protocol; DESIGN.md §7.8; seeded/rules_after_seed.json lists the seeds that were missed when first tried and the rule written or repaired afterwards.\n\n' % head)
+    f.write('| seed | property claimed? | caught by | rule written / repaired after seeing the seed |\n|---|---|---|---|\n')
     claimed = set(json.load(open('/verif/MANIFEST.json'))['checks'][i]['property_id'] for i in range(len(json.load(open('/verif/MANIFEST.json'))['checks'])))
     n = c = 0
     for sid, pid, det, rnd in rows:
         n += 1
         c += bool(det)
-        f.write('| %s | %s | %s |\n' % (sid, 'yes' if pid in claimed else 'not applicable',
-                                      ', '.join('%s [%s]' % (d['check'], ', '.join(d['rules'])) for d in det) or '**missed**'))
+        f.write('| %s | %s | %s | %s |\n' % (sid, 'yes' if pid in claimed else 'not applicable',
+                                           ', '.join('%s [%s]' % (d['check'], ', '.join(d['rules'])) for d in det) or '**missed**',
+                                           AFTER.get(sid, '')))
     f.write('\n%d of %d caught.\n' % (c, n))
 print('seeds', len(rows))
